@@ -400,3 +400,43 @@ def merge_results(results: List[dict], plan: dict, config: str) -> dict:
     out["probes"], out["fired"] = dict(pr), dict(fr)
     out["digest"] = dg.hexdigest()
     return out
+
+
+# ---------------------------------------------------------------------------- garbage-collection oracle
+GC_DIRS = ("data/", "metadata/manifests/")
+
+
+def gc_deleted(sim: Sim, actor_name: str, lo: int, hi: int) -> List[str]:
+    """Paths actually removed by `actor_name` between global steps lo..hi (from the event log)."""
+    out = []
+    for (g, _t, a, op, target, outcome) in sim.log:
+        if a == actor_name and lo < g <= hi and op in ("remove", "delete") and outcome == "ok":
+            out.append(target)
+    return out
+
+
+def marker_targets(view, reader: ir.Reader) -> Dict[str, Tuple[str, float]]:
+    """marker path -> (protected path, marker mtime), read independently of datashard."""
+    import json as _json
+    out = {}
+    for m in view.list("metadata/inflight"):
+        if not m.endswith(".inflight"):
+            continue
+        try:
+            tgt = _json.loads(view.read(m).decode("utf-8")).get("file_path")
+        except Exception:
+            tgt = None
+        if not isinstance(tgt, str) or not tgt:
+            tgt = "data/" + m.rsplit("/", 1)[-1][:-len(".inflight")]
+        out[m] = (tgt.lstrip("/"), view.mtime(m))
+    return out
+
+
+def gc_protected_before(w: world.World, now: float, inflight_timeout_s: float = 24 * 3600.0) -> Tuple[set, set]:
+    """(files protected by a fresh marker, the fresh markers themselves) at time `now`."""
+    prot, fresh = set(), set()
+    for m, (tgt, mt) in marker_targets(w.view(), w.reader).items():
+        if now - mt <= inflight_timeout_s:
+            prot.add(tgt)
+            fresh.add(m)
+    return prot, fresh
